@@ -310,6 +310,14 @@ def r03_4(ctx: Ctx) -> None:
            detail="" if whole else "ring of 20000, cutoff 1500: g0[104:325) pS+pI, g1[2825:3022) pI, g2[4422:4606) pS+pI ... - with the "
            "origin moved between g1 and g2 the Inf chain {g1, g2} is judged as {g1} and {g2}: {g2} is dropped, {g1} is reported, "
            "while on the unrotated record the whole chain is dropped", form=" -> ".join(rebinding))
+    grown_first = sorted(rebinding) == sorted(want) and rebinding.index("apply_extenders") < rebinding.index("merge_over_origin")
+    ctx.ob("R03.4", CP, func, "find_protoclusters", "cores grown before they are united", grown_first,
+           "the origin merge is the only step that unites protoclusters of one rule whose cores overlap or lie within the "
+           "cutoff; extenders grow each core on its own, so they run before it - grown afterwards, two cores of one rule can "
+           "come to overlap and an anchoring gene then lies in two cores",
+           detail="" if grown_first else "rule R (cutoff 1000) EXTENDERS x: anchors a1, a2 more than a cutoff apart with extender "
+           "genes between them, each within the cutoff of the last: two protoclusters of R with overlapping cores are reported "
+           "instead of one", form=" -> ".join(rebinding))
     _ = module
 
 
